@@ -303,7 +303,8 @@ func (c18) RunUnit(t core.Tier, u int, r *core.Reporter) {
 
 func c18Judge(c *predCase, sh c18Shape) (f *core.Failure, nontrivial bool, observed string) {
 	st := store.New(c.Store)
-	out := drv.Run(c.query(), st, drv.Opt{Mode: c.Mode, B: c.B})
+	// (two more polls after the end of the result: a finished scan reads nothing further)
+	out := drv.Run(c.query(), st, drv.Opt{Mode: c.Mode, B: c.B, ExtraPoll: 2})
 	var logs []string
 	for _, op := range st.Log {
 		logs = append(logs, op.String())
